@@ -2,6 +2,7 @@ package main
 
 import (
 	"fmt"
+	"strings"
 	"go/ast"
 	"go/token"
 	"go/types"
@@ -559,6 +560,12 @@ func (u *Unit) havocClass(st *State, m string, ct *Contract, env *SpecEnv) {
 		u.havoc(st, "allocs", SInt)
 	case "pool":
 		u.havoc(st, "items", SArr(SInt, SArr(SInt, SBool)))
+		u.havoc(st, "pbrk", SInt)
+		for _, k := range sortedKeysT(u.initMem) {
+			if strings.HasPrefix(k, "pcap.") {
+				u.havoc(st, k, arrII)
+			}
+		}
 	default:
 		u.errorf("unknown modifies class %q", m)
 	}
